@@ -584,6 +584,29 @@ pub fn supervise(prop: &dyn Property, tier: Tier, seed: u64) -> i32 {
     let mut merged = Stats::default();
     let mut merged_nt: HashSet<u64> = HashSet::new();
     let mut violations: Vec<(String, String)> = Vec::new(); // (replay path, msg)
+
+    // regression tier: previously found failing cases of this property (replays/regress/<ID>-*.json)
+    let mut regress_count = 0usize;
+    if let Ok(rd) = std::fs::read_dir(Path::new(VERIF).join("replays").join("regress")) {
+        let mut files: Vec<PathBuf> = rd
+            .filter_map(|e| e.ok().map(|e| e.path()))
+            .filter(|p| p.file_name().and_then(|n| n.to_str()).map(|n| n.starts_with(&format!("{}-", prop.id())) && n.ends_with(".json")).unwrap_or(false))
+            .collect();
+        files.sort();
+        for f in files.iter().take(60) {
+            use std::os::unix::process::ExitStatusExt;
+            let st = std::process::Command::new(&exe)
+                .args(["replay", "--file", f.to_str().unwrap()])
+                .stdout(std::process::Stdio::null())
+                .stderr(std::process::Stdio::null())
+                .status()
+                .expect("harness: spawn replay");
+            regress_count += 1;
+            if st.signal().is_some() || st.code() == Some(1) {
+                violations.push((f.display().to_string(), "regression case fails again".into()));
+            }
+        }
+    }
     let mut harness_errors = Vec::new();
     let mut inconclusive = Vec::new();
     let findings = load_findings();
@@ -730,6 +753,13 @@ pub fn supervise(prop: &dyn Property, tier: Tier, seed: u64) -> i32 {
         "wall_s": wall,
         "violations": violations.len(),
     });
+    let mut ev = ev;
+    if let Ok(extra) = std::env::var("VERIF_EVIDENCE_EXTRA") {
+        if let Ok(j) = serde_json::from_str::<J>(&extra) {
+            ev["coverage"]["other_passes"] = j;
+        }
+    }
+    ev["coverage"]["regression_replays"] = json!(regress_count);
     let evdir = Path::new(VERIF).join("evidence");
     std::fs::create_dir_all(&evdir).ok();
     let evpath = evdir.join(format!("{}.json", prop.id()));
